@@ -83,7 +83,8 @@ def _canon_attr(v):
         return (type(v).__name__,) + tuple(_canon_attr(x) for x in v)
     if isinstance(v, dict):
         return ("dict", tuple(sorted((repr(k), repr(_canon_attr(x))) for k, x in v.items())))
-    return repr(v)
+    import re
+    return re.sub(r" at 0x[0-9a-fA-F]+", "", repr(v))     # no addresses in outcomes
 
 
 def canon_exc(e):
@@ -161,7 +162,10 @@ def run_body(op, lexer, parser, keep):
 def op_request(op):
     """The oracle request (plain, hashable) that defines the expected outcome of op."""
     k = op["kind"]
-    if k in ("parse", "sa_core", "sa_orm", "django"):
+    if k in ("sa_core", "sa_orm", "django"):
+        # the same shorthand call, alone, in a pristine process
+        return ("shorthand", k, op["text"])
+    if k == "parse":
         return ("parse", op["text"])
     if k == "tokenize_all":
         return ("tokens", op["text"])
@@ -299,12 +303,35 @@ def dry_info(op, opcode):
     return (len(ev), interesting_positions(ev))
 
 
+def observe_shorthand(kind, text):
+    """Call a shorthand once and report which AST it handed to its visitor (or the
+    exception that left it before it got that far) - the same observation the scheduler
+    makes inside a simulated run, here in a pristine process."""
+    init(with_hosts=True)
+    seen = []
+
+    def g(frame, event, arg):
+        if event == "call" and not seen and WATCH.get(frame.f_code) == "visit":
+            seen.append(canon_ast(frame.f_locals.get("node")))
+        return None
+
+    old = sys.gettrace()
+    sys.settrace(g)
+    try:
+        outcome, _ = HOSTS.call(kind, text)
+    finally:
+        sys.settrace(old)
+    return seen[0] if seen else outcome
+
+
 def oracle(req):
     """Handler of the pristine zygote: reference outcomes and dry-run traces are both
     computed in a process that never did anything else with the library."""
     if req[0] == "dry":
         import json
         return dry_info(json.loads(req[1]), req[2])
+    if req[0] == "shorthand":
+        return observe_shorthand(req[1], req[2])
     return reference(req)
 
 
@@ -707,6 +734,8 @@ def execute(plan, pristine, dry, deep=False, timeout=60.0):
                     "kind": "late-change-of-returned-value", "op": opid, "op_kind": kind,
                     "text": text, "expected": r0, "got": r1})
         for req in sorted(set(reqs), key=repr):
+            if req[0] == "shorthand":
+                continue
             got = reference(req)
             if got != refs[req]:
                 st.violations.append({
@@ -1360,7 +1389,7 @@ NOT_COVERED = ["free-threaded CPython", "pre-emption inside C code",
 
 # --------------------------------------------------------------------------- enumerated families
 SYSTEMATIC_DOC = (
-    "Besides the seeded random plans, three families are enumerated completely for a few "
+    "Besides the seeded random plans, these families are enumerated completely for a few "
     "text pairs: (A) abort on a shared lexer, then a second op on that lexer with a "
     "collector pass at EVERY traced event of the second op; (B) the same with the stale "
     "stream referenced by a pooled parser and a pre-emption at EVERY traced event of the "
